@@ -4,6 +4,8 @@
 -/
 import MxModel.Lemmas.PdSpec
 
+set_option linter.unusedSimpArgs false
+
 namespace Mx.PD
 
 /-! ### sums over the user accounts `1 … n` -/
